@@ -21,6 +21,16 @@ Fixpoint fold_res {S A : Type} (f : S -> A -> res S) (l : list A) (s : S) : res 
   | x :: tl => match f s x with Ok s' => fold_res f tl s' | Raise e => Raise e end
   end.
 
+Fixpoint map_res {A B : Type} (f : A -> res B) (l : list A) : res (list B) :=
+  match l with
+  | [] => Ok []
+  | x :: tl =>
+      match f x with
+      | Raise e => Raise e
+      | Ok y => match map_res f tl with Ok ys => Ok (y :: ys) | Raise e => Raise e end
+      end
+  end.
+
 Lemma divq_ok a b : ~ b == 0 -> divq a b = Ok (a / b).
 Proof. intros H. unfold divq. destruct (Qeq_bool_spec b 0); [tauto|reflexivity]. Qed.
 Lemma divz_ok a b : b <> 0%Z -> divz a b = Ok (Z.div a b).
